@@ -32,12 +32,6 @@ NOT_APPLICABLE = {
     'C02': 'schedule-only property of three unsynchronised steps (id assignment, commit, broadcast) in concurrent writers; neither '
            'Verus (without rewriting the code around its permission types) nor Kani (no threads) can express the quantifier; the '
            'one sequential piece (Excluded(last_id) bound) is decided under C01',
-    'C16': 'every decidable clause compares topics against format!() output (opaque to Verus, unaffordable in CBMC) and the rest '
-           'is a spawn/subscribe race between tokio tasks',
-    'C18': 'generator lifecycle is Nushell-engine evaluation on OS threads plus block_on; no xs function on the path that a '
-           'sequential contract could decide beyond the three-line append helper',
-    'C19': 'command execution is Nushell-engine evaluation inside spawn_blocking; ordering/isolation/exactly-one-terminal-event are '
-           'properties of script evaluation and task overlap, outside both verifiers',
 }
 
 
@@ -60,6 +54,8 @@ prop('C01',
            'store state; storage layouts inside fjall and concurrent writers are assumed / out of scope.',
      technique=TECH,
      units=['verus:keys', 'verus:store_ops', 'verus:read_ops', 'verus:lockstep'],
+     thorough_units=['kani:k2'],
+     thorough_obligations=['k2.*'],
      obligations=['lemma.L3.*', 'lemma.L5.*', 'lemma.L6.*', 'lemma.L7.*', 'keys.ctx_key.*', 'keys.range_end.next_ctx', 'keys.iter_ctx.*', 'keys.iter_all.*',
                   'store.iter_frames.*', 'store.read_sync.*', 'store.get.*', 'store.append.fresh_id', 'store.append.frame_as_given',
                   'store.append.stored', 'store.insert_frame.three_entries', 'store.remove.three_tombstones',
@@ -100,6 +96,8 @@ prop('C05',
            'topics and adjacent contexts.',
      technique=TECH,
      units=['verus:keys', 'verus:keys_max', 'verus:store_ops', 'verus:lockstep', 'kani:k1'],
+     thorough_units=['kani:k2'],
+     thorough_obligations=['k2.*'],
      obligations=['k1.*', 'lemma.L1.*', 'lemma.L3.*', 'lemma.L4.*', 'lemma.L7.*', 'lemma.L8.*', 'keys.prefix.*', 'keys.from_frame.*', 'keys.id_from_key.*', 'keys.ctx_key.*', 'keys.range_end.*',
                   'keys.iter_ctx.*', 'keys.iter_all.*', 'keys.*.body', 'store.head.*', 'store.iter_frames.*',
                   'store.get.*', 'store.insert_frame.three_entries', 'store.insert_frame.nul_*', 'store.remove.three_tombstones',
@@ -112,7 +110,6 @@ prop('C05',
 
 prop('C07',
      level='proof',
-     thorough_units=[],
      claim='Unbounded Verus proofs on the real Store::append / remove / reload loop of Store::new: an append is Ok only into the zero '
            'context or a registered one (else Err with no stored entry, no registry change, no event), xs.context only in the zero '
            'context with its ttl forced to Forever and its id registered, remove of an xs.context frame unregisters it, and after '
@@ -174,6 +171,49 @@ prop('C12',
      explanation='Slices: the argument expressions of the serializer format!s and the constructor expressions of the parsers.',
      not_decided='Frame/meta JSON via serde, serde_urlencoded, nu value conversion; symbolic text round trip')
 
+prop('C18',
+     level='other',
+     claim='Narrow (Verus, unbounded): every frame a generator emits goes through generators::serve::append, which hands the store exactly one '
+           'frame <name>.<suffix> in the spawn context with meta.source_id = the spawn id and the hash of the content (none without '
+           'content); try_start_task answers a spawn that handle_spawn_event refuses with exactly one <name>.spawn.error in the spawn '
+           'context naming the spawn id and the reason, and appends nothing otherwise; handle_spawn_event refuses - changing nothing - a spawn '
+           'for a name that is already running or without content, and otherwise records the task (id and context of the spawn frame, '
+           'expression = the content) under the name and starts it exactly once; the live loop hands every <name>.spawn to '
+           'try_start_task once and in order, and on <name>.stop schedules a restart of exactly the task registered under that name at '
+           'that moment (nothing for an unknown name); a (re)started duplex instance subscribes from just after its own new .start frame, following forever.',
+     technique=TECH,
+     units=['verus:handler_ops', 'verus:restart_ops'],
+     obligations=['generator.append.*', 'generator.try_start.*', 'generator.spawn_event.*', 'generator.live.*', 'generator.spawn.*',
+                  'handler_ops.generator_append.body', 'handler_ops.try_start_task.body', 'handler_ops.spawn_duplex_options.body',
+                  'restart_ops.handle_spawn_event.body', 'restart_ops.generators_live_loop.body'],
+     trusted=['extraction', 'sequential', 'scru128'],
+     extra_assumptions=['format! / json! as in C16; std HashMap<String,_> key model; cacache: the content read back is a function of the hash; '
+                        'the restart itself (sleep 1 s, spawn) is an elided async block'],
+     explanation='The xs-side steps of the lifecycle, each against a ghost log; the pipeline evaluation in between is the nu engine.',
+     not_decided='one .recv per produced string in production order, .stop after the last, duplex input fed exactly once (worker thread + nu '
+                 'evaluation + block_on); the duplex subscription has no context filter (not part of the statement)')
+
+prop('C19',
+     level='other',
+     claim='Narrow (Verus, unbounded): handle_define registers a valid definition under its name (replacing the previous one, the command '
+           'carrying the defining frame id) and reports an invalid one by exactly one <name>.error in the defining context naming it; before the '
+           'threshold commands::serve only registers historical definitions (no historical call is executed); its live loop hands a '
+           '<name>.define to handle_define and starts, for a <name>.call, exactly one execution task with the command registered under '
+           'that name at that moment and that call frame - nothing for an unknown name or any other frame; the result half of '
+           'execute_command emits, for the values the closure produced, one <name><suffix> frame per value in order - call context, '
+           'configured suffix (default .recv) and TTL, hash of the value JSON text, stamped with command id and call id - followed by exactly one stamped '
+           '<name>.complete, or, if the closure failed, exactly one stamped <name>.error carrying the error.',
+     technique=TECH,
+     units=['verus:handler_ops', 'verus:restart_ops'],
+     obligations=['command.define.*', 'command.call.*', 'command.live.*', 'restart.commands.*', 'handler_ops.handle_define.body',
+                  'handler_ops.command_results.body', 'restart_ops.commands_live_loop.body', 'restart_ops.commands_startup_fold.body'],
+     trusted=['extraction', 'sequential', 'scru128'],
+     extra_assumptions=['format! / json! as in C16; register_command and run_command are oracles (nu engine); PipelineData is iterated as a sequence of values; '
+                        'the execution task body (tokio::spawn async block) and spawn_blocking are elided: execute_command is verified from `match run_command(..)` on'],
+     explanation='The xs-side steps around the nu evaluation, each against a ghost log of appended frames / started tasks.',
+     not_decided='independence of concurrent calls (fresh engine clone per call, task overlap), stamps of frames the script appends itself (.append base meta, nu command), '
+                 'the unstamped <name>.error the caller appends when storing a result fails half way')
+
 prop('C20',
      level='proof',
      claim='Call-site obligations: insert_frame (the import path) stores the frame as is under its own id with one batch + SyncAll and '
@@ -212,15 +252,17 @@ prop('C06',
      claim='Unbounded Verus proofs on the real code: the context arm of iter_frames scans exactly [ctx, ctx+1) (lemma L5: no key of '
            'another context, adjacent ids included); head scans a prefix that starts with the context id; the live task drops frames '
            'of other contexts; a handler always subscribes with its own context and every frame it emits is forced into its own '
-           'context; GET /head?follow subscribes in the requested context.',
+           'context; GET /head?follow subscribes in the requested context; the `.cat` command of a script reads with exactly its own context and `.head` '
+           'looks in its own context unless --context names another id that parses.',
      technique=TECH,
-     units=['verus:keys', 'verus:store_ops', 'verus:read_ops', 'verus:handler_ops', 'verus:api_ops'],
+     units=['verus:keys', 'verus:store_ops', 'verus:read_ops', 'verus:handler_ops', 'verus:api_ops', 'verus:nu_ops'],
      obligations=['lemma.L1.*', 'lemma.L5.*', 'keys.iter_ctx.*', 'keys.range_end.next_ctx', 'keys.prefix.layout', 'keys.ctx_key.layout', 'store.iter_frames.*', 'store.head.*',
                   'read.live.forwards_exactly_wanted_in_order', 'read.live.post', 'handler.options.own_context', 'handler.stamp.*',
-                  'api.head_follow.*', 'handler_ops.stamp_loop.body', 'api_ops.head_follow_options.body'],
+                  'api.head_follow.*', 'handler_ops.stamp_loop.body', 'api_ops.head_follow_options.body',
+                  'nu.cat.*', 'nu.head.*', 'nu_ops.*.body'],
      trusted=STORE_TRUST + ['channels'],
      explanation='Key-range lemmas plus contracts on every xs function that passes a context along.',
-     not_decided='.cat/.head inside scripts (nu Command impls pass their stored context through, by inspection only); generator output')
+     not_decided='that the nu engine hands each script the command instances built for its context (Engine set-up); generator output (a duplex generator subscribes without a context)')
 
 prop('C10',
      level='other',
@@ -254,56 +296,83 @@ prop('C13',
      claim='Narrow (Verus, sequential slices of api.rs): an xs-meta header that cannot be decoded is handled as a value (400), never by '
            'a panicking unwrap; the CasGet arm evaluates to a response for every outcome of cas_reader; import answers 400 for '
            'undecodable JSON and changes nothing; the frame appended by POST /{topic} carries exactly topic/context/hash/meta/ttl of '
-           'the request; head-follow uses the requested context.',
+           'the request; head-follow uses the requested context; match_route, the whole function, implements the route table of the '
+           'property (exact reserved paths /version, /, /cas, /import; prefixes /head/ and /cas/; ids for GET / DELETE; every other POST path '
+           'is a topic with its leading slashes removed; ?context= and ttl decoded or answered with BadRequest).',
      technique=TECH,
-     units=['verus:api_ops'],
+     units=['verus:api_ops', 'verus:route_ops'],
      obligations=['api_ops.meta_header_str.body', 'api.cas_get.*', 'api.import.bad_json_rejected', 'api.import.error_no_effect',
                   'api.append.frame_from_request', 'api.append.error_no_append', 'api.head_follow.*', 'api.cas_post.empty_rejected',
                   'api.route.*', 'api.validate_integrity.*', 'api_ops.route_ctx_param_*.body', 'api_ops.validate_integrity.body',
-                  'api_ops.cas_get_arm.body'],
+                  'api_ops.cas_get_arm.body', 'route_ops.match_route.body'],
      trusted=['extraction', 'sequential'],
-     explanation='Totality / faithfulness obligations on slices; the route table and response rendering are out of reach.',
-     not_decided='match_route, NDJSON/SSE rendering, request sequences (hyper/tokio/url are outside both verifiers)')
+     extra_assumptions=['`match (method, path)` is rewritten into its if / else-if chain (match_pair_desugar); starts_with / strip_prefix / trim_start_matches are prefix '
+                        'functions of the text; query decoding, id / hash / option / ttl parsing are functions of the text'],
+     explanation='Totality / faithfulness obligations on slices, and the whole of match_route against a routing function written from the route list of the property.',
+     not_decided='NDJSON/SSE rendering, the dispatch in handle(), request sequences (hyper/tokio/url are outside both verifiers)')
 
 prop('C14',
      level='other',
      claim='Narrow (Verus): a handler subscribes to its own context only, from the configured resume point (head / tail / after id), '
-           'following forever; the dispatch loop never hands a frame whose meta.handler_id is its own id to process_frame.',
+           'following forever; the dispatch loop (Verus, unbounded over the sequence of frames the subscription delivers) hands to process_frame exactly the frames that are neither registration traffic of its own name nor carry its own handler id, each once and in order, and consumes nothing after a <name>.register / <name>.unregister frame newer than its own registration, whoever wrote that frame.',
      technique=TECH,
      units=['verus:handler_ops'],
      obligations=['handler.options.*', 'handler.serve.*', 'handler.stamp.*', 'handler_ops.Handler::configure_read_options.body',
                   'handler_ops.serve_loop.body', 'handler_ops.stamp_loop.body', 'handler.process_frame.one_evaluation'],
      trusted=['extraction', 'sequential', 'scru128'],
      extra_assumptions=['serde_json::Value accessors (get / as_str / as_object_mut) behave as a map / string model; Display of an id is injective'],
-     explanation='configure_read_options whole function; the serve loop with format!() results opaque and json! payloads elided.',
-     not_decided='(un)register skip/stop conditions (compare against format!() output); bursts (C02/C03); env persistence (nu)')
+     explanation='configure_read_options whole function; the serve loop with format!("{}.register", name) taken as name + ".register" (assumed of std::fmt) and json! payloads elided.',
+     not_decided='that the subscription delivers every frame of the context once and in order under bursts (C02/C03: bounded suites); env persistence (nu)')
 
 prop('C15',
      level='proof',
      claim='Verus, unbounded, on the whole of Handler::process_frame: the closure is evaluated exactly once; if it (or storing its return '
            'value) fails, none of the frames of this invocation is appended; otherwise the buffered .append frames in call order and '
            'then the return-value frame are appended, each exactly once, each carrying meta.handler_id = the handler id and '
-           'meta.frame_id = the triggering frame id (overriding script-provided values) and forced into the handler own context.',
+           'meta.frame_id = the triggering frame id (overriding script-provided values) and forced into the handler own context; the return-value frame is emitted exactly when the value is not nothing (and not one of the call own append records), on <name><suffix> (default .out) with the configured TTL and the hash of the JSON text of the value.',
      technique=TECH,
      units=['verus:handler_ops'],
      obligations=['handler.stamp.*', 'handler_ops.stamp_loop.body', 'handler.process_frame.*', 'handler_ops.process_frame_whole.body'],
      trusted=['extraction', 'sequential', 'scru128'],
      extra_assumptions=['serde_json::Value / Map model (object = map, insert overwrites); buffered metas are absent or objects (nu Record)'],
      explanation='The loop is extracted verbatim and verified with a loop invariant over the ghost list of appended frames.',
-     not_decided='return-frame topic (format!), evaluation failure path, script shapes, CAS content')
+     not_decided='script shapes (the nu evaluation is an oracle: eval_value / eval_buffered), that cas_insert really stores the content (assumed of cacache)')
+
+prop('C16',
+     level='other',
+     claim='Narrow (Verus, unbounded over the frames delivered): the live loop of handlers::serve hands every frame whose topic ends in '
+           '.register - and nothing else - to start_handler, once and in order, with the name = the topic without the suffix; '
+           'start_handler spawns a valid registration exactly once and answers an invalid one with exactly one <name>.unregistered '
+           'frame in the registering context carrying the registering id and the error; the dispatch loop of Handler::serve stops at '
+           'the first <name>.register / <name>.unregister newer than its own registration or at the first failed invocation, consumes '
+           'nothing afterwards, and announces each such stop by exactly one <name>.unregistered frame in its own context carrying its '
+           'handler id, the id of the stopping frame and (for a failure) the error - its last action; without a stop it announces nothing.',
+     technique=TECH,
+     units=['verus:handler_ops', 'verus:restart_ops'],
+     obligations=['handler.serve.*', 'handler_ops.serve_loop.body', 'handlers.start.*', 'handler_ops.start_handler.body',
+                  'handlers.live.*', 'restart_ops.handlers_live_loop.body'],
+     trusted=['extraction', 'sequential', 'scru128'],
+     extra_assumptions=['format!("{}<literal>", name) = name followed by the literal; serde_json::json!({..}) with a flat object = an object with '
+                        'exactly those members (json_desugar); Handler::from_frame succeeds or fails as an oracle (nu engine)'],
+     explanation='Three pieces of real code, each against a ghost log: the live loop (started handlers), start_handler (spawned / announced), the '
+                 'dispatch loop (processed / appended).',
+     not_decided='"at most one active instance per (context, name)" as a whole-system invariant (it follows from the three pieces only if every '
+                 'instance receives the replacing .register - C03); "once .registered is visible the handler is subscribed" (spawn/subscribe race between '
+                 'tokio tasks; needs the hook the property names); that the replaced instance of ANOTHER context is not stopped follows from the context-scoped subscription (C06)')
 
 prop('C17',
      level='proof',
      claim='Verus, unbounded, on the real start-up folds: handlers::serve keeps, per name, the latest .register of the history up to the '
            'threshold that was not cancelled by an .unregister / .unregistered carrying its handler id (split at the LAST dot of '
            'the topic, handler id = the registering frame id); generators::serve keeps, per name, the last of .spawn / .spawn.error; commands::serve registers every historical .define in '
-           'order and does nothing else before the threshold (no historical .call is executed). '
+           'order and does nothing else before the threshold (no historical .call is executed); a duplex generator that is (re)spawned subscribes to its input from just after the .start frame this spawn appended, so earlier .send frames are not fed to it again. '
            'The clause "independently of what exists under the same name in other contexts" is stated as a separate obligation and '
            'fails on this tree (known finding: maps keyed by name only); with all frames in one context the two folds agree (lemma).',
      technique=TECH,
-     units=['verus:restart_ops'],
+     units=['verus:restart_ops', 'verus:handler_ops'],
      obligations=['restart.handlers.*', 'restart.generators.*', 'restart.commands.*', 'restart_ops.handlers_replay_fold.body',
-                  'restart_ops.generators_compaction_fold.body', 'restart_ops.commands_startup_fold.body'],
+                  'restart_ops.generators_compaction_fold.body', 'restart_ops.commands_startup_fold.body',
+                  'generator.spawn.*', 'handler_ops.spawn_duplex_options.body'],
      trusted=['extraction', 'sequential', 'scru128'],
      extra_assumptions=['std HashMap<String,_> (key model, borrowed &str keys), String extensionality, rsplit_once / strip_suffix / ends_with as text '
                         'functions, serde_json::Value accessors -- all assumed; `match suffix {"..." => ..}` is rewritten to the equivalent if/else chain'],
